@@ -260,6 +260,17 @@ func init() {
 			c.Emit("fromHash", J{"h": hx(h)}, J{"m": algScHex(curve.FromHash(secp, h))})
 		}
 		for it := 0; it < c.N; it++ {
+			if it%14 == 0 { // keygen's chain key: EmptyRID() XOR-ed with every contribution, in list order
+				k := c.Intn(6)
+				cs := make([]string, k)
+				ck := types.EmptyRID()
+				for i := range cs {
+					b := c.Bytes(32)
+					cs[i] = hx(b)
+					ck.XOR(types.RID(b))
+				}
+				c.Emit("chainKeyXor", J{"contribs": cs}, J{"chain": hx(ck)})
+			}
 			switch it % 14 {
 			case 0: // ID.Scalar
 				id := genID(c)
